@@ -484,6 +484,14 @@ def only_store_add_feeds_index(ctx, rule):
                     pl = sy.place(st["place"])
                     if pl[0] == "field" and str(pl[2]) == "ix" and S.strip_refs(pl[1]) == rec_arg:
                         ix_assign = (bj, st, sy.rvalue(st["rv"]))
+            # every record that is stored is also indexed: the call lies on every path of the adder
+            k_unc = "index-every-record:%s" % b.id
+            if cfg.every_path_passes(0, [bi]):
+                ctx.ok(rule, k_unc, where(b, bi, t), "%s hands every record to the index (the call is on every path)" % b.id, nontrivial=True)
+            else:
+                ctx.fail(rule, k_unc, where(b, bi, t), "%s stores a record without indexing it on some path: the index's record count falls "
+                         "behind the record vector and later records are never candidates" % b.id,
+                         {"witness": "a title without words ('', '?!') added before other records"})
             if ix_assign is None:
                 ctx.fail(rule, key, where(b, bi, t), "record.ix is not assigned in %s before the record is indexed" % b.id,
                          {"witness": "every record is indexed at position 0"})
@@ -595,6 +603,32 @@ def grams_from_whole_words(ctx, rule):
                              % S.show(recv, p)[:140],
                              {"witness": "English store: title 'walking shoes', query 'king' — the suffix cut off by the stemmer is never indexed"})
       ctx.floor(rule, "gram_iterator_uses", n, 1, p0.where())
+      # no word is passed over: in the loop over the words, every trip reaches the gram iterator
+      sy0 = ctx.sym(p0)
+      cfg0 = ctx.cfg(p0)
+      uses0 = [bi for bi, t in p0.calls() if U.callee_is(t, "Trigrams::trigrams") or (t.get("rcn") or "").endswith("TrigramIter::new")]
+      for nbi, nt in p0.calls():
+          if not (nt.get("cn") or "").endswith("Iterator::next"):
+              continue
+          src_, st_ = U.chain(sy0.operand(nt["args"][0]))
+          pth_ = U.field_path(src_)
+          is_words = bool(pth_ and pth_[2] and pth_[2][-1] == "words") or (
+              pth_ is not None and pth_[0] == "arg" and not pth_[2] and p0.kind != "closure" and
+              all((U.field_path(e_) or (0, 0, [None]))[2][-1:] == ["words"] for _, e_ in U.param_sources(ctx, p0, pth_[1])))
+          if not is_words:
+              continue
+          key2 = "every-word:%s" % p0.id
+          extra = [s_[0] for s_ in st_ if s_[0] not in ("iter", "into_iter")]
+          tg_ = nt.get("target")
+          sw_ = p0.blocks[tg_]["term"] if tg_ is not None else None
+          some_ = [x for v, x in sw_["targets"] if v == 1] if sw_ is not None and sw_["k"] == "switch" else []
+          skipping = bool(some_) and uses0 and some_[0] not in uses0 and cfg0.path_exists(some_[0], nbi, avoid=uses0)
+          if extra or skipping or not uses0:
+              ctx.fail(rule, key2, where(p0, nbi, nt), "the gram generator passes over some words (%s): such a word links no query to its "
+                       "title" % ("adaptors %s" % extra if extra else "a guard skips the gram iterator"),
+                       {"witness": "English store, title 'toy', query 'to y': the short function word 'to' produces no gram"})
+          else:
+              ctx.ok(rule, key2, where(p0, nbi, nt), "every word of the text reaches the gram iterator", nontrivial=True)
 
 
 def posting_writer_bodies(ctx):
